@@ -218,10 +218,13 @@ impl<T: CountMinValue> CountMinSketch<T> {
     }
 
     /// Returns the upper bound on the true frequency of the given item.
+    ///
+    /// The bound saturates at `T::MAX`: `estimate + relative_error * total_weight` can exceed
+    /// the counter type even when the total weight itself fits.
     pub fn upper_bound<I: Hash>(&self, item: I) -> T {
         let estimate = self.estimate(item);
         let error = T::from_f64(self.relative_error() * self.total_weight.to_f64());
-        estimate.add(error)
+        estimate.saturating_add(error)
     }
 
     /// Merges another sketch into this one.
